@@ -1,4 +1,4 @@
-"""Task types of the TaskDiagram grammar (spec names d.D1, d.D2, d.D3): two parameters each."""
+"""Task types of the TaskDiagram grammar (spec names d.D1, d.D2, d.D3): two parameters each (D3 inherits its two from D1)."""
 from typing import Any
 
 import labtech
@@ -23,9 +23,8 @@ class D2:
 
 
 @labtech.task
-class D3:
-    f1: Any = 1
-    f2: Any = 1
+class D3(D1):
+    """a task type that extends another task type: both of its parameters are inherited"""
 
     def run(self):
         return None
